@@ -4,9 +4,9 @@ set -u
 PAT="${1:-TestRepro_}"; REPO="${2:-/repo}"
 HERE="$(cd "$(dirname "$0")" && pwd)"
 D=$(mktemp -d); trap 'rm -rf $D' EXIT
-declare -A DIRS=( [hrpc]=hrpc [region]=region [region_c05]=region [region_f12]=region [region_f18]=region [gohbase]=. )
+declare -A DIRS=( [hrpc]=hrpc [region]=region [region_c05]=region [region_f12]=region [region_f18]=region [gohbase]=. [gohbase_f19]=. )
 echo '{"Replace": {' > $D/ov.json; first=1
-for p in hrpc region region_c05 region_f12 region_f18 gohbase; do
+for p in hrpc region region_c05 region_f12 region_f18 gohbase gohbase_f19; do
   cp $HERE/repro/repro_${p}_test.go.txt $D/zz_repro_${p}_test.go
   [ $first = 1 ] || echo ',' >> $D/ov.json; first=0
   echo "\"$REPO/${DIRS[$p]}/zz_repro_${p}_test.go\": \"$D/zz_repro_${p}_test.go\"" >> $D/ov.json
